@@ -129,6 +129,13 @@ def main(argv=None):
     if hasattr(cm, 'bounded_checks') and not args.unit:
         bounded = cm.bounded_checks(args.tier, seed)
 
+    # thorough tier: the assumed library contracts are tried against the installed libraries (bounded, sampled; pyvc/conformance.py)
+    conformance = None
+    if args.tier == 'thorough' and not args.unit and os.environ.get('VERIF_CONFORMANCE', '1') != '0':
+        conformance = run_conformance(seed)
+    global _CONFORMANCE
+    _CONFORMANCE = conformance
+
     known = [k for k in load_known_findings() if k.get('property') == prop]
     by_name = {r.unit.name: r for r in results}
     violations, undecided, crashes, known_hits = [], [], [], []
@@ -261,6 +268,13 @@ def main(argv=None):
             exit_code = 2
             for r, why in undecided:
                 print(f'UNDECIDED property={prop} unit={r.unit.name}: {why}')
+        elif conformance is not None and not all(c.get('ok') for c in conformance):
+            # an assumed library contract that the installed library contradicts: what was discharged rests on a wrong model
+            exit_code = 2
+            for c in conformance:
+                if not c.get('ok'):
+                    print(f"UNDECIDED property={prop}: the assumed contract of {c.get('models')} disagrees with the installed library: "
+                          f"{(c.get('disagreements') or [c.get('error')])[0]}")
 
     if not args.unit:
         write_evidence(prop, args.tier, seed, results, bounded, obligations, discharged, known_hits,
@@ -271,6 +285,19 @@ def main(argv=None):
 
 
 _NATIVE_CACHE = {}
+_CONFORMANCE = None
+
+
+def run_conformance(seed):
+    env = dict(os.environ, PYTHONPATH=str(VERIF))
+    try:
+        p = subprocess.run([sys.executable, '-m', 'pyvc.conformance', str(seed)], capture_output=True, text=True, timeout=900, env=env, cwd=str(VERIF))
+    except subprocess.TimeoutExpired:
+        return [dict(check='conformance', ok=False, error='timed out', models=[])]
+    for line in p.stdout.splitlines():
+        if line.startswith('@@CONFORMANCE@@'):
+            return json.loads(line[len('@@CONFORMANCE@@'):])
+    return [dict(check='conformance', ok=False, error='crashed: ' + p.stderr[-500:], models=[])]
 
 
 def _one(args):
@@ -404,6 +431,12 @@ def write_evidence(prop, tier, seed, results, bounded, obligations, discharged, 
         bounded=[{k: v for k, v in b.items() if k != 'violations'} for b in bounded],
         explanation=getattr(cm, 'EXPLANATION', ''),
     )
+    if _CONFORMANCE is not None:
+        cov['library_conformance'] = dict(
+            what='assumed library contracts tried against the installed libraries on generated inputs (bounded; narrows the trusted base, '
+                 'does not remove it; never counted among the discharged obligations)',
+            checks=[{k: v for k, v in c.items() if k != 'trace'} for c in _CONFORMANCE],
+            all_agree=all(c.get('ok') for c in _CONFORMANCE))
     if level != 'proof' or bounded:
         cov['evaluations'] = sum(b.get('cases', 0) for b in bounded) or max(obligations, 1)
         cov['distinct_nontrivial'] = sum(b.get('distinct_nontrivial', 0) for b in bounded) or max(2, obligations)
